@@ -15,8 +15,9 @@
 //       - everything a victim was newly sent is a documented effect: a PR_RESULT_DATAITEMS / PR_RESULT_INDEXUPDATED that names
 //         only nodes under X's root (the victim subscribed to them), or a client-to-client Message (what code outside the
 //         PR_COMMAND and PR_RESULT ranges) whose PR_NAME_SESSION, if it is a string, names X;
-//       - every privileged command (KICK, ADDBANS, REMOVEBANS, ADDREQUIRES, REMOVEREQUIRES) was bounced with
-//         PR_RESULT_ERRORACCESSDENIED, X holds no PR_NAME_PRIVILEGE_BITS parameter and HasPrivilege() is false for every privilege.
+//       - every privileged command (KICK, ADDBANS, REMOVEBANS, ADDREQUIRES, REMOVEREQUIRES) whose privilege X lacks was bounced with
+//         PR_RESULT_ERRORACCESSDENIED; X's PR_NAME_PRIVILEGE_BITS never gains a bit and never exceeds what the server granted at
+//         attach time (nothing in three start states; ADDBANS+REMOVEBANS but not KICK in the fourth).
 //  2. "departure" (SEQX, differential; harness/C06_departure.h).
 //  3. "cut-at-every-byte" (socket-stepped enumeration; harness/C06_cut.h).
 #include "harness/reflector_l1.h"
@@ -42,13 +43,21 @@ struct World {
    std::string baseline;                  // victim dump before X's first command
    std::vector<std::string> v1Queue;      // V1's undrained queue (flattened), must stay a prefix of its queue
    uint32_t nodesOutsideX;
+   int32_t grantedPriv;                   // privilege bits the SERVER granted X at attach time (0 in all start states but one)
    std::string initError, initKey;
    std::string outcome;                   // what X / V1 / V2 were sent by the last command
+   verif::Hash128 hist;                   // running hash of (start, commands so far): key of g_cleanPrefixes
+   World() : nodesOutsideX(0), grantedPriv(0) { hist.a = hist.b = 0; }
 };
+
+// Lazy comparison (as in C04): the verdict for a history prefix is a pure function of the prefix, and SEQX replays the same prefix
+// once per alphabet symbol.  A process remembers the prefixes it has executed AND compared clean; re-executing such a prefix
+// only carries the state forward (inject, event-loop pass, queues trimmed) without re-taking the dumps.
+static std::set<verif::Hash128> g_cleanPrefixes;
 
 struct Op {
    std::string name, kind;                // kind = command family + argument class (part of every violation key)
-   int nPrivileged;                       // number of privileged sub-commands: each must be bounced with PR_RESULT_ERRORACCESSDENIED
+   int nPrivileged;                       // privileged sub-commands, packed 100*KICK + 10*(ADDBANS|ADDREQUIRES) + (REMOVEBANS|REMOVEREQUIRES): each one whose privilege X lacks must be bounced with PR_RESULT_ERRORACCESSDENIED
    std::function<MessageRef(World &)> make;
 };
 
@@ -80,7 +89,7 @@ static std::string IndexName(World & W, const char * node, size_t i, const char 
 
 struct Model {
    std::vector<Op> ops;
-   struct Start { std::string name, xHost; std::vector<std::string> prefix; };
+   struct Start { std::string name, xHost; std::vector<std::string> prefix; int32_t grant; Start() : grant(0) {} };
    std::vector<Start> starts;
 
    void Add(const std::string & name, const std::string & kind, int nPriv, const std::function<MessageRef(World &)> & f) { Op o; o.name = "X: " + name; o.kind = kind; o.nPrivileged = nPriv; o.make = f; ops.push_back(o); }
@@ -122,15 +131,15 @@ struct Model {
       Add("SETPARAMETERS SUBSCRIBE:/* + SUBSCRIBE:/hV/* + SUBSCRIBE:/*/*/n/* (host, session, index children)", "SETPARAMETERS:subscribe-host-and-session-level", 0, [](WR) { MessageRef m = l1::SetParameters(); l1::AddSubscribe(m, "/*"); l1::AddSubscribe(m, "/hV/*"); l1::AddSubscribe(m, "/*/*/n/*"); return m; });
       Add("SETPARAMETERS !Self, !MxUp=1, !Enc=zlib6", "SETPARAMETERS:own-flags", 0, [](WR) { MessageRef m = l1::SetParameters(); l1::AddFlagParam(m, PR_NAME_REFLECT_TO_SELF); l1::AddMaxUpdateItems(m, 1); (void) m()->AddInt32(PR_NAME_REPLY_ENCODING, muscle::MUSCLE_MESSAGE_ENCODING_ZLIB_6); return m; });
       Add("SETPARAMETERS !SnKy=[/hV/1, /hW/*] (default route)", "SETPARAMETERS:default-route", 0, [](WR) { MessageRef m = l1::SetParameters(); l1::AddDefaultRoute(m, Keys("/hV/1", "/hW/*")); return m; });
-      Add("SETPARAMETERS !Root=/hV/1, session='1', !Dsub, !G2N, !N2G", "SETPARAMETERS:forged-identity", 0, [](WR) { MessageRef m = l1::SetParameters(); (void) m()->AddString(PR_NAME_SESSION_ROOT, "/hV/1"); (void) m()->AddString(PR_NAME_SESSION, "1"); l1::AddFlagParam(m, PR_NAME_DISABLE_SUBSCRIPTIONS); l1::AddFlagParam(m, PR_NAME_ROUTE_GATEWAY_TO_NEIGHBORS); l1::AddFlagParam(m, PR_NAME_ROUTE_NEIGHBORS_TO_GATEWAY); return m; });
+      Add("SETPARAMETERS !Root=/hV/1, session='1', !Mns=0, !Mcn=0, !Dsub, !G2N, !N2G", "SETPARAMETERS:forged-identity", 0, [](WR) { MessageRef m = l1::SetParameters(); (void) m()->AddString(PR_NAME_SESSION_ROOT, "/hV/1"); (void) m()->AddString(PR_NAME_SESSION, "1"); (void) m()->AddInt32(PR_NAME_MAX_NODES_PER_SESSION, 0); (void) m()->AddInt32(PR_NAME_MAX_CHILDREN_PER_NODE, 0); l1::AddFlagParam(m, PR_NAME_DISABLE_SUBSCRIPTIONS); l1::AddFlagParam(m, PR_NAME_ROUTE_GATEWAY_TO_NEIGHBORS); l1::AddFlagParam(m, PR_NAME_ROUTE_NEIGHBORS_TO_GATEWAY); return m; });
       Add("REMOVEPARAMETERS *", "REMOVEPARAMETERS:wildcard", 0, [](WR) { return l1::RemoveParameters(Keys("*")); });
       Add("REMOVEPARAMETERS SUBSCRIBE:* | !Priv | /hV/1/*", "REMOVEPARAMETERS:wildcard", 0, [](WR) { return l1::RemoveParameters(Keys("SUBSCRIBE:*", PR_NAME_PRIVILEGE_BITS, "/hV/1/*")); });
       // ---- privileged codes without privilege
-      Add("KICK /hV/1", "KICK", 1, [](WR) { return l1::Keyed(muscle::PR_COMMAND_KICK, Keys("/hV/1")); });
-      Add("KICK /*/* | * | /hV/*/x", "KICK", 1, [](WR) { return l1::Keyed(muscle::PR_COMMAND_KICK, Keys("/*/*", "*", "/hV/*/x")); });
-      Add("ADDBANS * | hV | hW", "ADDBANS", 1, [](WR) { return l1::Keyed(muscle::PR_COMMAND_ADDBANS, Keys("*", "hV", "hW")); });
+      Add("KICK /hV/1", "KICK", 100, [](WR) { return l1::Keyed(muscle::PR_COMMAND_KICK, Keys("/hV/1")); });
+      Add("KICK /*/* | * | /hV/*/x", "KICK", 100, [](WR) { return l1::Keyed(muscle::PR_COMMAND_KICK, Keys("/*/*", "*", "/hV/*/x")); });
+      Add("ADDBANS * | hV | hW", "ADDBANS", 10, [](WR) { return l1::Keyed(muscle::PR_COMMAND_ADDBANS, Keys("*", "hV", "hW")); });
       Add("REMOVEBANS *", "REMOVEBANS", 1, [](WR) { return l1::Keyed(muscle::PR_COMMAND_REMOVEBANS, Keys("*")); });
-      Add("ADDREQUIRES nobody", "ADDREQUIRES", 1, [](WR) { return l1::Keyed(muscle::PR_COMMAND_ADDREQUIRES, Keys("nobody")); });
+      Add("ADDREQUIRES nobody", "ADDREQUIRES", 10, [](WR) { return l1::Keyed(muscle::PR_COMMAND_ADDREQUIRES, Keys("nobody")); });
       Add("REMOVEREQUIRES *", "REMOVEREQUIRES", 1, [](WR) { return l1::Keyed(muscle::PR_COMMAND_REMOVEREQUIRES, Keys("*")); });
       // ---- client-to-client Messages
       Add("Message 1234 to /hV/1 with session='1'", "route:forged-session", 0, [](WR) { std::vector<std::string> k = Keys("/hV/1"); return Routed(1234, &k, "1"); });
@@ -158,10 +167,10 @@ struct Model {
       Add("what=BEGIN_PR_COMMANDS /hV/1/x", "RESERVED", 0, [](WR) { return l1::Keyed((uint32_t)muscle::BEGIN_PR_COMMANDS, Keys("/hV/1/x")); });
       Add("what=END_PR_COMMANDS /hV/1/x", "RESERVED", 0, [](WR) { return l1::Keyed((uint32_t)muscle::END_PR_COMMANDS, Keys("/hV/1/x")); });
       // ---- batches
-      Add("BATCH[SETPARAMETERS !Priv=-1, KICK /*/*, ADDBANS *]", "BATCH:privilege-then-kick", 2, [](WR) { std::vector<MessageRef> v; v.push_back(Priv(-1)); v.push_back(l1::Keyed(muscle::PR_COMMAND_KICK, Keys("/*/*"))); v.push_back(l1::Keyed(muscle::PR_COMMAND_ADDBANS, Keys("*"))); return l1::Batch(v); });
+      Add("BATCH[SETPARAMETERS !Priv=-1, KICK /*/*, ADDBANS *]", "BATCH:privilege-then-kick", 110, [](WR) { std::vector<MessageRef> v; v.push_back(Priv(-1)); v.push_back(l1::Keyed(muscle::PR_COMMAND_KICK, Keys("/*/*"))); v.push_back(l1::Keyed(muscle::PR_COMMAND_ADDBANS, Keys("*"))); return l1::Batch(v); });
       Add("BATCH[SETDATA ../1/x, REMOVEDATA /*/*/*, REMOVEDATA */*/*]", "BATCH:set-then-remove", 0, [](WR) { std::vector<MessageRef> v; v.push_back(l1::SetData("../1/x", l1::Payload(9))); v.push_back(l1::RemoveData(Keys("/*/*/*"))); v.push_back(l1::RemoveData(Keys("*/*/*"))); return l1::Batch(v); });
       Add("BATCH[GETDATA /*/*/*, GETDATATREES /hV/1 id t1, JETTISONRESULTS /hW/*/*, JETTISONDATATREES t1]", "BATCH:get-then-jettison", 0, [](WR) { std::vector<MessageRef> v; v.push_back(l1::GetData(Keys("/*/*/*"))); v.push_back(l1::GetDataTrees(Keys("/hV/1"), "t1")); std::vector<std::string> k = Keys("/hW/*/*"); v.push_back(l1::JettisonResults(&k)); v.push_back(l1::JettisonDataTrees("t1")); return l1::Batch(v); });
-      Add("BATCH[BATCH[KICK *], INSERTORDEREDDATA /hV/1/n, REORDERDATA /hV/1/n/* remove, REMOVEDATA /hV/1/n]", "BATCH:nested", 1, [](WR) { std::vector<MessageRef> in; in.push_back(l1::Keyed(muscle::PR_COMMAND_KICK, Keys("*"))); std::vector<MessageRef> v; v.push_back(l1::Batch(in)); MessageRef ins = l1::InsertOrderedData(Keys("/hV/1/n")); l1::AddData(ins, "append", l1::Payload(9)); v.push_back(ins); v.push_back(l1::ReorderData("/hV/1/n/*", PR_NAME_REMOVE_FROM_INDEX)); v.push_back(l1::RemoveData(Keys("/hV/1/n"))); return l1::Batch(v); });
+      Add("BATCH[BATCH[KICK *], INSERTORDEREDDATA /hV/1/n, REORDERDATA /hV/1/n/* remove, REMOVEDATA /hV/1/n]", "BATCH:nested", 100, [](WR) { std::vector<MessageRef> in; in.push_back(l1::Keyed(muscle::PR_COMMAND_KICK, Keys("*"))); std::vector<MessageRef> v; v.push_back(l1::Batch(in)); MessageRef ins = l1::InsertOrderedData(Keys("/hV/1/n")); l1::AddData(ins, "append", l1::Payload(9)); v.push_back(ins); v.push_back(l1::ReorderData("/hV/1/n/*", PR_NAME_REMOVE_FROM_INDEX)); v.push_back(l1::RemoveData(Keys("/hV/1/n"))); return l1::Batch(v); });
       Add("BATCH[SUBSCRIBE:/*/*/*, REMOVEPARAMETERS *, forged PR_RESULT_DATAITEMS to /hV/1]", "BATCH:subscribe-unsubscribe-forge", 0, [](WR) { std::vector<MessageRef> v; v.push_back(l1::Subscribe("/*/*/*")); v.push_back(l1::RemoveParameters(Keys("*"))); std::vector<std::string> k = Keys("/hV/1"); v.push_back(ForgedDataItems(&k)); return l1::Batch(v); });
 
       // ---- start states
@@ -171,6 +180,7 @@ struct Model {
         s.prefix.push_back("X: SETPARAMETERS SUBSCRIBE:/*/*/* [v==1]"); s.prefix.push_back("X: SETPARAMETERS SUBSCRIBE:/* + SUBSCRIBE:/hV/* + SUBSCRIBE:/*/*/n/* (host, session, index children)"); s.prefix.push_back("X: SETPARAMETERS !Self, !MxUp=1, !Enc=zlib6"); starts.push_back(s); }
       { Start s; s.name = "X on V2's host (/hW/3), holding ../1/x, literal-star nodes and a default route aimed at the victims"; s.xHost = "hW";
         s.prefix.push_back("X: SETDATA ../1/x=v9"); s.prefix.push_back("X: SETDATA *=v9 and */x=v1 (literal star names)"); s.prefix.push_back("X: SETPARAMETERS !SnKy=[/hV/1, /hW/*] (default route)"); starts.push_back(s); }
+      { Start s; s.name = "X alone on host hP, granted PR_PRIVILEGE_ADDBANS and PR_PRIVILEGE_REMOVEBANS by the server but NOT PR_PRIVILEGE_KICK"; s.xHost = "hP"; s.grant = (1 << muscle::PR_PRIVILEGE_ADDBANS) | (1 << muscle::PR_PRIVILEGE_REMOVEBANS); starts.push_back(s); }
    }
 
    typedef iso::World World;
@@ -205,7 +215,7 @@ struct Model {
       w.Inject(V2, l1::SetData("idx/b", l1::Payload(2), l1::Flags(muscle::SETDATANODE_FLAG_ADDTOINDEX)));
       { MessageRef p = l1::SetParameters(); l1::AddSubscribe(p, "/*/*/*", l1::Int32Filter("v", muscle::Int32QueryFilter::OP_EQUAL_TO, 1)); l1::AddSubscribe(p, "n"); l1::AddFlagParam(p, PR_NAME_REFLECT_TO_SELF); w.Inject(V2, p); }
       (void) w.Drain(V1); (void) w.Drain(V2);
-      // V1 leaves three Messages unread in its outgoing queue: a PR_RESULT_DATAITEMS, a PR_RESULT_DATATREES (id t1) and a PR_RESULT_PONG
+      // V1 leaves Messages unread in its outgoing queue: PR_RESULT_DATAITEMS (+ the PR_RESULT_INDEXUPDATED of V2's index), a PR_RESULT_DATATREES (id t1) and a PR_RESULT_PONG
       w.Inject(V1, l1::GetData(Keys("/hW/*/*")));
       w.Inject(V1, l1::GetDataTrees(Keys("/hW/2/idx"), "t1"));
       w.Inject(V1, l1::Ping(1));
@@ -216,11 +226,14 @@ struct Model {
    {
       const Start & S = starts[start];
       W.xHost = S.xHost; W.xRoot = "/" + S.xHost + "/" + l1::U32(kXId);
+      W.hist.a = verif::Mix64(0x150ULL + (uint64_t)start * 977); W.hist.b = verif::Mix64(W.hist.a ^ 0x9e3779b97f4a7c15ULL);
+      W.grantedPriv = S.grant;
+      for (int p = 0; p < muscle::PR_NUM_PRIVILEGES; p++) if (S.grant & (1 << p)) W.w.GrantPrivilege(p, S.xHost);   // must precede Attach; matches X's host only
       if (!SetupVictims(W) || !W.w.Attach(RX, S.xHost, kXId)) { W.initError = "could not build the victims"; W.initKey = "infra"; return; }
       (void) W.w.Step();
       (void) W.w.Drain(V2); (void) W.w.Drain(RX);
       { muscle::Queue<MessageRef> & q = W.w.S(V1)->GetGateway()()->GetOutgoingMessageQueue(); for (uint32_t i = 0; i < q.GetNumItems(); i++) W.v1Queue.push_back(l1::Flat(q[i])); }
-      if (W.v1Queue.size() != 3) { W.initError = "V1's baseline queue does not hold 3 Messages"; W.initKey = "infra"; return; }
+      if (W.v1Queue.size() < 3) { W.initError = "V1's baseline queue holds fewer than 3 Messages"; W.initKey = "infra"; return; }
       W.baseline = VictimDump(W);
       W.nodesOutsideX = NodesOutsideX(W);
       std::string q = W.w.CheckQuiescent(); if (q.empty()) q = W.w.CheckTreeInvariants();
@@ -268,8 +281,16 @@ struct Model {
       const Op & o = ops[opi];
       l1::L1World & w = W.w;
       W.outcome.clear();
+      W.hist.a = verif::Mix64(W.hist.a + (uint64_t)opi + 1); W.hist.b = verif::Mix64((W.hist.b ^ ((uint64_t)opi + 0x51ed27ULL)) * 0x100000001b3ULL);
+      const int32_t privBefore = w.S(RX)->GetParametersConst().GetInt32(PR_NAME_PRIVILEGE_BITS);
       w.Inject(RX, o.make(W));
       const uint32_t gone = w.Step();   // one real event-loop pass: a kicked session would be detached here
+      if (g_cleanPrefixes.count(W.hist) && !gone) {   // known clean: carry the state only
+         muscle::Queue<MessageRef> & qq = w.S(V1)->GetGateway()()->GetOutgoingMessageQueue();
+         while (qq.GetNumItems() > W.v1Queue.size()) (void) qq.RemoveTail();
+         (void) w.Drain(V2); (void) w.Drain(RX);
+         return SEQX_OK;
+      }
       if (gone) { key = "session-detached:" + o.kind; msg = verif::Fmt("after X's command the server detached session(s) with role mask %u (V1=1, V2=2, X=4)", (unsigned)gone); return SEQX_VIOLATION; }
       std::string q = w.CheckQuiescent();
       if (!q.empty()) { key = "not-quiescent:" + o.kind; msg = q; return SEQX_VIOLATION; }
@@ -286,7 +307,7 @@ struct Model {
          muscle::Queue<MessageRef> & qq = w.S(V1)->GetGateway()()->GetOutgoingMessageQueue();
          bool same = qq.GetNumItems() >= W.v1Queue.size();
          for (size_t i = 0; same && i < W.v1Queue.size(); i++) same = (l1::Flat(qq[(uint32_t)i]) == W.v1Queue[i]);
-         if (!same) { key = "victim-queue-changed:" + o.kind; msg = "V1's undrained outgoing queue (PR_RESULT_DATAITEMS, PR_RESULT_DATATREES t1, PR_RESULT_PONG) no longer starts with the same Messages"; return SEQX_VIOLATION; }
+         if (!same) { key = "victim-queue-changed:" + o.kind; msg = "V1's undrained outgoing queue (PR_RESULT_DATAITEMS, PR_RESULT_INDEXUPDATED, PR_RESULT_DATATREES t1, PR_RESULT_PONG) no longer starts with the same Messages"; return SEQX_VIOLATION; }
          for (uint32_t i = (uint32_t)W.v1Queue.size(); i < qq.GetNumItems(); i++) fresh[V1].push_back(qq[i]);
          while (qq.GetNumItems() > W.v1Queue.size()) (void) qq.RemoveTail();
       }
@@ -300,9 +321,14 @@ struct Model {
       std::vector<MessageRef> xin = w.Drain(RX);
       int denied = 0;
       for (size_t i = 0; i < xin.size(); i++) { W.outcome += "X<-" + c06::ScrubGen(l1::MsgText(xin[i])) + "\n"; if (xin[i]()->what == muscle::PR_RESULT_ERRORACCESSDENIED) denied++; }
-      if (denied != o.nPrivileged) { key = "privileged-command-not-refused:" + o.kind; msg = verif::Fmt("%d privileged command(s) sent without privilege, %d PR_RESULT_ERRORACCESSDENIED received", o.nPrivileged, denied); return SEQX_VIOLATION; }
-      if (w.S(RX)->GetParametersConst().HasName(PR_NAME_PRIVILEGE_BITS)) { key = "privilege-bits-set-by-client:" + o.kind; msg = "X's parameter set now contains " PR_NAME_PRIVILEGE_BITS; return SEQX_VIOLATION; }
-      for (int p = 0; p < muscle::PR_NUM_PRIVILEGES; p++) if (w.S(RX)->HasPrivilege(p)) { key = "privilege-acquired:" + o.kind; msg = verif::Fmt("HasPrivilege(%d) is true for the unprivileged session", p); return SEQX_VIOLATION; }
+      const int expectDenied = (o.nPrivileged / 100) * ((privBefore & (1 << muscle::PR_PRIVILEGE_KICK)) ? 0 : 1) + ((o.nPrivileged / 10) % 10) * ((privBefore & (1 << muscle::PR_PRIVILEGE_ADDBANS)) ? 0 : 1) + (o.nPrivileged % 10) * ((privBefore & (1 << muscle::PR_PRIVILEGE_REMOVEBANS)) ? 0 : 1);
+      if (denied != expectDenied) { key = "privileged-command-not-refused:" + o.kind; msg = verif::Fmt("X holds privilege bits 0x%x; %d of its privileged command(s) lack the privilege, %d PR_RESULT_ERRORACCESSDENIED received", (unsigned)privBefore, expectDenied, denied); return SEQX_VIOLATION; }
+      // privilege bits come from the server only: a client command may at most drop them (REMOVEPARAMETERS of its own parameter), never add one
+      const int32_t privAfter = w.S(RX)->GetParametersConst().GetInt32(PR_NAME_PRIVILEGE_BITS);
+      if ((privAfter & ~privBefore) != 0 || (privAfter & ~W.grantedPriv) != 0) { key = "privilege-bits-set-by-client:" + o.kind; msg = verif::Fmt("X's " PR_NAME_PRIVILEGE_BITS " went from 0x%x to 0x%x (granted by the server: 0x%x)", (unsigned)privBefore, (unsigned)privAfter, (unsigned)W.grantedPriv); return SEQX_VIOLATION; }
+      for (int p = 0; p < muscle::PR_NUM_PRIVILEGES; p++) if (w.S(RX)->HasPrivilege(p) && !(W.grantedPriv & (1 << p))) { key = "privilege-acquired:" + o.kind; msg = verif::Fmt("HasPrivilege(%d) is true although the server never granted it", p); return SEQX_VIOLATION; }
+      if (g_cleanPrefixes.size() > 2000000) g_cleanPrefixes.clear();
+      g_cleanPrefixes.insert(W.hist);
       return SEQX_OK;
    }
 
@@ -312,10 +338,10 @@ struct Model {
 
 static std::string Rule(const Model & m, int depth)
 {
-   return verif::Fmt("every sequence of <=%d commands of the unprivileged session X from a %d-command alphabet, from %d start states (X on V1's host / alone on a host / on V2's host, with and without own data, subscriptions and a default route), each replayed on a fresh real ReflectServer; "
+   return verif::Fmt("every sequence of <=%d commands of the unprivileged session X from a %d-command alphabet, from %d start states (X on V1's host / alone on a host / on V2's host / alone with the ban privileges; with and without own data, subscriptions and a default route), each replayed on a fresh real ReflectServer; "
                      "alphabet = every what code of the PR_COMMAND range (SETPARAMETERS incl. !Priv / forged !Root / default route / host- and session-level SUBSCRIBE:, GETPARAMETERS, REMOVEPARAMETERS, SETDATA, GETDATA, REMOVEDATA, JETTISONRESULTS, INSERTORDEREDDATA, PING, KICK, ADDBANS, REMOVEBANS, BATCH (also nested), NOOP, REORDERDATA, ADDREQUIRES, REMOVEREQUIRES, SETDATATREES, GETDATATREES, JETTISONDATATREES, RESERVED21..32, both range guards) "
-                     "with arguments aimed at the victims (absolute paths /hV/1/x, /*/*/*, ../1/x, ../../hW/2/y, *, */*/*, session- and host-level paths, literal-star names, quiet flag, forged PR_NAME_SESSION), client-to-client Messages with forged PR_NAME_SESSION and boundary what codes, forged PR_RESULT_* Messages; "
-                     "after every command + one ServerProcessLoop(0) pass: no session detached, canonical dump of everything outside X's subtree (X's own subscriber marks stripped) identical to the baseline, V1's undrained queue intact, every Message newly sent to a victim is a notice about a node under X's root or a client-to-client Message naming X, privileged commands bounced, no privilege bit; "
+                     "(X holds no privilege in 3 start states and only the two ban privileges, not KICK, in the 4th) with arguments aimed at the victims (absolute paths /hV/1/x, /*/*/*, ../1/x, ../../hW/2/y, *, */*/*, session- and host-level paths, literal-star names, quiet flag, forged PR_NAME_SESSION), client-to-client Messages with forged PR_NAME_SESSION and boundary what codes, forged PR_RESULT_* Messages; "
+                     "after every command + one ServerProcessLoop(0) pass: no session detached, canonical dump of everything outside X's subtree (X's own subscriber marks stripped) identical to the baseline, V1's undrained queue intact, every Message newly sent to a victim is a notice about a node under X's root or a client-to-client Message naming X, privileged commands lacking their privilege bounced with PR_RESULT_ERRORACCESSDENIED, no privilege bit gained; "
                      "states deduplicated on the full canonical server dump (tree with payloads, index order, per-node subscriber tables, per-session subscriptions, routes, parameters, flags, node counts; generated names by rank)",
                      depth, m.NumOps(), m.NumStarts());
 }
